@@ -1,4 +1,4 @@
-From GV Require Import Common.Outcome C09.Model C09.Spec C09.Proofs.
+From GV Require Import Common.Outcome C09.Model C09.Spec C09.Proofs C09.Lookbehind.
 
 Theorem C09_lex_total : lex_total_stmt.
 Proof. exact lex_total. Qed.
@@ -35,3 +35,11 @@ Print Assumptions C09_set_rule_ids_exact.
 Theorem C09_set_rule_ids_dup_names_refuted : set_rule_ids_dup_names_refuted_stmt.
 Proof. exact set_rule_ids_dup_names_refuted. Qed.
 Print Assumptions C09_set_rule_ids_dup_names_refuted.
+
+Theorem C09_lex_table_extensional : lex_table_extensional_stmt.
+Proof. exact lex_table_extensional. Qed.
+Print Assumptions C09_lex_table_extensional.
+
+Theorem C09_lookbehind_tables_differ_refuted : lookbehind_tables_differ_refuted_stmt.
+Proof. exact lookbehind_tables_differ_refuted. Qed.
+Print Assumptions C09_lookbehind_tables_differ_refuted.
